@@ -1,7 +1,7 @@
 """C06 — results do not depend on call history: caches are transparent.
 
 Theorems: coq/props/C06.v (memo invariant over all histories, transparency on
-safe histories, refutations for F2 / F10 / F22 shapes).  Correspondence: the
+safe histories, refutations for F2 / F10 / F40 shapes).  Correspondence: the
 StateModel `run_out` against the implementation on generated operation
 histories (one job = one history, fresh classes).  Direct predicate: the
 outcome of every load/dump in a history equals the outcome of the same call made
@@ -20,14 +20,15 @@ META = {
     'technique': 'Coq proof (memo invariant by induction over operation histories, transparency by simulation against the '
                  'cache-free pure outcome) on a hand-written Gallina state model + differential correspondence on generated histories',
     'design_ref': 'DESIGN.md section 4 C06',
-    'theorems': ['C06_inv_init', 'C06_inv_step', 'C06_inv_run', 'C06_transparent', 'C06_strict_key_every_time',
+    'theorems': ['C06_inv_init', 'C06_inv_step', 'C06_inv_run', 'C06_transparent', 'C06_pure_outcome',
+                 'C06_strict_key_every_time', 'C06_safe_example', 'C06_inv_step_example', 'C06_strict_example',
                  'C06_refuted_subclass_after_use', 'C06_refuted_base_used_first', 'C06_refuted_shared_nested',
-                 'C06_refuted_nested_alone_first', 'C06_safe_example'],
+                 'C06_refuted_nested_alone_first'],
     'tables': [],
     'level_text': ('Theorems proved in Coq for ALL operation histories (any length, any classes, any Meta) of an executable model of '
                    'the library\'s module-level memo tables: the memo invariant holds after every safe history, and on safe histories the '
                    'outcome of every operation equals its outcome after the definitions alone. The model is faithful to the open defects '
-                   '(F2, F10, F11, F22); each is refuted by a machine-checked witness that is replayed on the implementation. The model '
+                   '(F2, F10, F11, F40); each is refuted by a machine-checked witness that is replayed on the implementation. The model '
                    'is re-validated against the implementation on every run.'),
     'level_note': ('Trusted: Coq kernel + vm_compute; the hand-written state model (default engine, int/str/nested-dataclass fields, '
                    'five Meta settings); the correspondence harness. The generated code itself, dict semantics and dataclasses are exercised, not proved.'),
@@ -168,18 +169,22 @@ def run_model(ctx, histories, tag='cases'):
 # --------------------------------------------------------------------------- static analysis of a history
 class Sim:
     """Independent bookkeeping of who-was-generated-under-which-Meta, used only to CLASSIFY failing
-    cases into the open regions F2 / F10 / F11 / F22 (it never decides pass/fail)."""
+    cases into the open regions F2 / F10 / F11 / F40 (it never decides pass/fail).  step() returns
+    {region: set of indices of the earlier operations that cause it}."""
 
     def __init__(self):
+        self.i = -1
         self.decl = {}
+        self.def_idx = {}
         self.ref = {}        # cid -> meta object id
         self.mobj = {}       # meta object id -> dict
-        self.minit = {}      # (mod-independent) qualname -> meta object id
-        self.attr = {'load': set(), 'dump': set()}
+        self.minit = {}      # qualname -> meta object id
+        self.attr = {'load': {}, 'dump': {}}     # cid -> index of the op that specialised the attribute
         self.fn = {'load': set(), 'dump': set()}
-        self.gov = {}
-        self.tainted22 = set()
-        self.tainted11 = set()
+        self.gov = {}        # cid -> [(effective meta, op index)]
+        self.f10_dirty = set()
+        self.tainted40 = {}  # cid -> index of the BindMeta that rewrote its Meta object
+        self.tainted11 = {}  # cid -> index of the definition that left the initialiser it picked up
 
     @staticmethod
     def m_and(a, b):
@@ -224,31 +229,37 @@ class Sim:
                 out.extend(self.tree(ty['nested']))
         return out
 
-    def inst_classes(self, v):
+    @staticmethod
+    def inst_classes(v):
         if not isinstance(v, dict) or 'c' not in v:
             return []
         out = [v['c']]
         for _, x in v['f']:
-            out.extend(self.inst_classes(x))
+            out.extend(Sim.inst_classes(x))
         return out
 
-    def _bind_default(self, c, r, owner_ok):
+    def _bind_default(self, c, r, legit):
         if r is None:
             return
         if self.ref.get(c) is not None:
+            if self.ref[c] != r:
+                sharers = [x for x in self.decl if x != c and self.ref.get(x) == self.ref[c]]
+                for x in sharers:
+                    self.tainted40.setdefault(x, self.i)
             self.mobj[self.ref[c]] = self.m_and(self.mobj[self.ref[c]], self.mobj[r])
         else:
             self.ref[c] = r
-        if not owner_ok:
-            self.tainted11.add(c)
+        if not legit:
+            self.tainted11.setdefault(c, self.def_idx.get(r[1], self.i))
 
     def step(self, o):
-        """returns the set of open regions this operation lies in"""
+        self.i += 1
         k = o['op']
-        regions = set()
+        regions = {}
         if k == 'define':
             c = o['cid']
             self.decl[c] = o
+            self.def_idx[c] = self.i
             if o['wiz']:
                 if o.get('inner') is not None:
                     self.mobj[('I', c)] = dict(o['inner'])
@@ -268,9 +279,10 @@ class Sim:
                 self.ref[c] = ('B', c)
             else:
                 sharers = [x for x in self.decl if x != c and self.ref.get(x) == r]
+                for x in sharers:
+                    self.tainted40.setdefault(x, self.i)
                 if sharers:
-                    self.tainted22.update(sharers)
-                    regions.add('F22')
+                    regions['F40'] = {self.i}
                 self.mobj[r] = self.m_and(self.mobj[r], o['meta'])
             return regions
         kind = 'load' if k == 'load' else 'dump'
@@ -283,29 +295,34 @@ class Sim:
                     owner = x
                     break
         if owner is not None and owner != c:
-            regions.add('F2')
+            regions['F2'] = {self.attr[kind][owner]}
             root = owner
         else:
             root = c
         if owner is None and c not in self.fn[kind]:
             if d['wiz'] and not any(x in self.attr[kind] for x in [c] + d['mro']):
-                self.attr[kind].add(c)
+                self.attr[kind][c] = self.i
             self.fn[kind].add(c)
-        touched = self.tree(root) if k == 'load' else [root] + [x for x in self.inst_classes(o['inst']) if x != root or False]
+        touched = self.tree(root) if k == 'load' else [root] + self.inst_classes(o['inst'])[1:]
         cfg = self.cfg_of(root)
-        first = True
-        for n in touched:
-            e = self.eff(n, None if (n == root and first) else cfg)
-            first = False
+        for pos, n in enumerate(touched):
+            e = self.eff(n, None if pos == 0 else cfg)
             # every Meta under which n's tables were (re)written by an earlier call
-            if any(g != e for g in self.gov.get(n, [])):
-                regions.add('F10')
-            self.gov.setdefault(n, []).append(e)
-            if n in self.tainted22:
-                regions.add('F22')
+            # (once two different Metas met on n, WHICH earlier call filled which table decides the outcome,
+            #  so every earlier call that touched n counts as a cause)
+            if any(g != e for g, j in self.gov.get(n, [])) or n in self.f10_dirty:
+                self.f10_dirty.add(n)
+                regions.setdefault('F10', set()).update(j for g, j in self.gov.get(n, []))
+            self.gov.setdefault(n, []).append((e, self.i))
+            if n in self.tainted40:
+                regions.setdefault('F40', set()).add(self.tainted40[n])
             if n in self.tainted11:
-                regions.add('F11')
+                regions.setdefault('F11', set()).add(self.tainted11[n])
         return regions
+
+
+def op_class(o):
+    return o['cid'] if o['op'] in ('define', 'bind', 'load') else o['inst']['c']
 
 
 def regions_of(history):
@@ -317,7 +334,6 @@ def needed_defs(history, i):
     """definitions and bindings the i-th operation needs: its class, the nested classes, the base classes"""
     decl = {o['cid']: o for o in history[:i] if o['op'] == 'define'}
     o = history[i]
-    roots = [o['cid']] if o['op'] == 'load' else Sim().inst_classes(o['inst']) if False else None
     need = set()
 
     def add(c):
@@ -391,12 +407,14 @@ class Prog:
         self.seen_vt = set()
 
     # ---- classes
-    def new_class(self, kind=None, force_nested=None, qn=None, wiz=None):
+    def new_class(self, kind=None, force_nested=None, qn=None, wiz=None, pool=None, mod=None):
         r = self.r
         c = self.next
         self.next += 1
-        existing = list(self.decl)
+        existing = list(self.decl) if pool is None else [x for x in self.decl if x in pool]
         kind = kind or r.choice(['leaf', 'leaf', 'root', 'root', 'sub'] if existing else ['leaf'])
+        if kind in ('root', 'sub') and not existing and not force_nested:
+            kind = 'leaf'
         base = None
         if kind == 'sub':
             base = r.choice(existing)
@@ -428,7 +446,7 @@ class Prog:
             own = nest + req + opt if r.random() < 0.5 else req + nest + opt
         allf = fields + own
         mro = [] if base is None else [base] + self.decl[base]['mro']
-        o = {'op': 'define', 'cid': c, 'qn': self.qn_base + c if qn is None else qn, 'mod': self.mod, 'wiz': wiz, 'base': base, 'mro': mro,
+        o = {'op': 'define', 'cid': c, 'qn': self.qn_base + c if qn is None else qn, 'mod': mod or self.mod, 'wiz': wiz, 'base': base, 'mro': mro,
              'base_qn': None if base is None else self.decl[base]['qn'],
              'inner': gen_meta(r) if (wiz and r.random() < 0.35) else None,
              'fields': allf, 'own_fields': own, 'tag': 'subclass' if base is not None else 'define'}
@@ -653,7 +671,7 @@ def replay_history(ctx, h):
 
 
 OPEN = {'F2': 'F2-subclass-inherits-specialised', 'F10': 'F10-shared-nested-meta-leak', 'F11': 'F11-meta-initializer-qualname',
-        'F22': 'F22-subclass-bind-mutates-base-meta'}
+        'F40': 'F40-subclass-bind-mutates-base-meta'}
 
 
 def classify_and_report(ctx, label, h, info, prop_regions):
@@ -721,7 +739,7 @@ def witness_histories():
         {'op': 'dump', 'attr': False, 'inst': {'c': 1, 'f': [['my_val', {'i': 1}]]}}]
     w['F10-nested-alone-first'] = [
         cls(1, inner, wiz=False), cls(2, [['inner', {'nested': 1}, None]], wiz=False),
-        {'op': 'bind', 'cid': 2, 'meta': M(raise_=None, **{'raise': True})} if False else {'op': 'bind', 'cid': 2, 'meta': M(**{'raise': True})},
+        {'op': 'bind', 'cid': 2, 'meta': M(**{'raise': True})},
         {'op': 'load', 'cid': 1, 'attr': False, 'doc': {'my_val': 2, 'zzz': 1}},
         {'op': 'load', 'cid': 2, 'attr': False, 'doc': {'inner': {'my_val': 2, 'zzz': 1}}}]
     w['F11-meta-initializer-qualname'] = [
@@ -729,7 +747,7 @@ def witness_histories():
         cls(2, inner, qn=7, mod='b'),
         {'op': 'dump', 'attr': True, 'inst': {'c': 2, 'f': [['my_val', {'i': 1}]]}},
         {'op': 'load', 'cid': 2, 'attr': True, 'doc': {'zz': 1}}]
-    w['F22-subclass-bind-mutates-base-meta'] = [
+    w['F40-subclass-bind-mutates-base-meta'] = [
         cls(1, [['my_x', 'int', 1]], inner=M(dtr='SNAKE')),
         cls(2, [['my_x', 'int', 1], ['my_y', 'int', 2]], base=1, mro=[1], own=[['my_y', 'int', 2]]),
         {'op': 'bind', 'cid': 2, 'meta': M(skipdef=True, **{'raise': True})},
@@ -773,7 +791,7 @@ def run(ctx):
         for o, out in zip(h, info['impl']):
             if o['op'] in ('load', 'dump'):
                 ctx.hist('outcome', 'error' if out.startswith('e') else 'value')
-        classify_and_report(ctx, 'C06', h, info, ('F2', 'F10', 'F22', 'F11'))
+        classify_and_report(ctx, 'C06', h, info, ('F2', 'F10', 'F40', 'F11'))
     ctx.sample({'history': hs[0], 'impl': infos[0]['impl'], 'model': infos[0]['model'], 'alone': infos[0]['alone']})
     ctx.sample({'history': hs[7], 'impl': infos[7]['impl'], 'alone': infos[7]['alone']})
     # 3. strict setting: the same offending document is rejected every time (F1 repaired) - direct
